@@ -265,14 +265,14 @@ theorem C18_list_parts_exact (parts : List (Int × Bytes)) (hnd : keysNodup part
       exact ⟨(n, c), hc, rfl⟩
 
 /-- complete_multipart_upload: the object becomes the concatenation of the listed parts — ANY strictly ascending selection
-    of the uploaded parts, with or without gaps in the numbers (fa59617; before, only `1, 2, …, m` was accepted:
+    of the uploaded parts, with or without gaps in the numbers (dbb8684; before, only `1, 2, …, m` was accepted:
     fs:complete-requires-consecutive-parts) — in list (= ascending part-number) order, with the upload's metadata; the upload
     is gone; an identity other than the creator gets `AccessDenied` and changes nothing; an upload that does not exist — at
     all, or under this bucket and key (41e1cf2; before: fs:upload-not-bound-to-key) — is `NoSuchUpload` on both sides
     (4609ab3). EVERY part list is inside the predicate, and a complete that fails validation is answered alike and changes
     nothing — the upload stays and can be completed later (0096ef4; before the upload was consumed first:
     fs:failed-complete-consumes-upload, and a missing part was `InternalError`: fs:complete-missing-part-internal-error) —
-    with the store's code, in the store's order (a00e4e8; before: fs:complete-part-list-validation): no part list or an
+    with the store's code, in the store's order (0fcb858; before: fs:complete-part-list-validation): no part list or an
     empty one `MalformedXML` (before anything else is looked at), then, for the owner, a part without a number
     `MalformedXML`, numbers not strictly ascending (unordered, repeated) `InvalidPartOrder`, a listed part that was never
     uploaded `InvalidPart`, a part other than the last listed below the minimum size `EntityTooSmall`; the metadata and the
@@ -539,7 +539,7 @@ example : Good (run H0 4096 {} (demo.take 25)).1 (demo.getD 25 .listBuckets) ∧
     (run H0 4096 {} (demo.take 28)).2.drop 25 = [.err .InvalidPart, .part (some (etagOf H0 [5])), .err .EntityTooSmall] ∧
     (alLookup 1 (run H0 4096 {} (demo.take 28)).1.uploads).isSome = true := by decide
 
-/-- every part list is inside `Good` (fa59617, a00e4e8; before, only `1, 2, …, m` was), is answered with the store's code in
+/-- every part list is inside `Good` (dbb8684, 0fcb858; before, only `1, 2, …, m` was), is answered with the store's code in
     the store's order and, when refused, leaves the upload in place: on an upload that holds the parts 9, 2, 5 — no part
     list, an empty one (also for an upload that does not exist), a part without a number: `MalformedXML`; unordered or
     repeated numbers: `InvalidPartOrder` (also when a listed part does not exist); a part that was never uploaded:
